@@ -6,11 +6,13 @@ CONSTANTS
   KeepStatus = FALSE
   RecheckAtApply = TRUE
   RecheckISR = TRUE
+  KeepOnFail = FALSE
   CountAll = TRUE
   InitISRs = {{"r1"}, {"r1", "r2"}, {"r1", "r2", "r3"}, {"r1", "r2", "r3", "r4"}}
   L0 = "r1"
   PairSels = {"cur", "sl", "prev", "next", "pep", "first"}
   MaxOps = 8
+  Faults = TRUE
   MaxPend = 0
 INVARIANTS C07_LeaderInISR
 PROPERTIES StepsOK
